@@ -199,6 +199,10 @@ impl Driver {
         Ok(())
     }
 
+    pub fn counters(&self) -> (SequenceNumberCounter, SequenceNumberCounter) {
+        (self.seqno.clone(), self.visible.clone())
+    }
+
     pub fn tree(&self) -> &AnyTree {
         self.tree.as_ref().expect("tree open")
     }
@@ -299,6 +303,18 @@ impl Driver {
     }
 
     pub fn exec(&mut self, op: &Op) {
+        let mark = std::env::var_os("LSMV_MARK").is_some();
+        if mark {
+            // visible in a syscall trace as a write to fd 2: segments the trace per operation
+            eprintln!("LSMV-OP {}", op.text());
+        }
+        self.exec_inner(op);
+        if mark {
+            eprintln!("LSMV-OPEND {}", op.text());
+        }
+    }
+
+    fn exec_inner(&mut self, op: &Op) {
         let _ = writeln!(self.out, "H {}", op.text());
         let mutating = !op.is_read()
             && !matches!(op, Op::Snap(_) | Op::Rel(_) | Op::Verdict(..) | Op::ExpectErr);
@@ -922,14 +938,29 @@ pub fn run_multi(h: &History, cfgs: &[TreeCfg], base: &Path, shared: bool, cache
 
 /// Runs a history and leaves the (closed) tree directory in place.
 pub fn run_history_keep(h: &History, dir: &Path) -> String {
+    run_history_keep_opt(h, dir, false)
+}
+
+pub fn run_history_keep_opt(h: &History, dir: &Path, dump: bool) -> String {
     let mut d = Driver::new(dir, h.cfg.clone());
-    d.dump_enabled = false;
+    d.dump_enabled = dump;
+    let mark = std::env::var_os("LSMV_MARK").is_some();
+    if mark {
+        eprintln!("LSMV-OP open");
+    }
     if let Err(e) = d.open() {
         return format!("FATAL open {e}");
+    }
+    if mark {
+        eprintln!("LSMV-OPEND open");
+    }
+    if dump {
+        d.dump();
     }
     for op in &h.ops {
         let r = std::panic::catch_unwind(std::panic::AssertUnwindSafe(|| d.exec(op)));
         if r.is_err() {
+            let _ = writeln!(d.out, "PANIC");
             break;
         }
     }
